@@ -24,6 +24,7 @@ template <class T> static void make_room(Ctx &c, const ObjBase *keep = nullptr) 
     }
 }
 
+
 template <class T> static bool exec_buf_t(Ctx &c, const Op &op) {
     typedef ST::buffer<T> Buf;
     typedef std::basic_string<T> Str;
@@ -203,6 +204,17 @@ template <class T> static bool exec_buf_t(Ctx &c, const Op &op) {
             set_viol(c, !size_ok ? "value_mismatch" : !block_ok ? "storage_class" : !term_ok ? "terminator_missing" : "value_mismatch",
                      std::string(ET<T>::name()) + ": allocate(" + std::to_string(n) + "): " + (!size_ok ? "size() differs" : !block_ok ? "data() is not the base of a live heap block of n+1 elements" : !term_ok ? "no NUL after the last element" : "the value did not survive a move"));
         if (settle(c, op, ex, 0)) { crossing<T>(c, dst->model.size(), 0); dst->model.clear(); dst->moved_from = true; }
+        return true;
+    }
+    case B_STRAIGHT: {
+        // straight-line code on local objects, everything inlined into one function - what a user's function looks like to the optimiser (the pool
+        // operations are separate calls, so nothing the compiler may assume about one call carries into the next). Matters in the -O2 variant.
+        char e[32]; std::snprintf(e, sizeof e, "form=%u", op.b % 4); note_sig<T>(c, op, e);
+        c.budget_bytes = 512;
+        std::string why;
+        ExcKind ex = run_sut(c, op, [&] { why = straight_line_run(ET<T>::idx, op.b, op.c, op.d); });
+        if (ex == EX_NONE && !why.empty()) set_viol(c, "value_mismatch", std::string(ET<T>::name()) + " (local objects, straight-line code): " + why);
+        settle(c, op, ex, 0);
         return true;
     }
     case B_CLEAR: {
